@@ -134,7 +134,7 @@ def build(pkg="harness", race=False, out=None):
     if race:
         args.insert(1, "-race")
         env["CGO_ENABLED"] = "1"
-    args.append("./verif" + pkg)
+    args.append("." if pkg == "fan2go" else "./verif" + pkg)
     r = go(args, env=env)
     if r.returncode != 0:
         raise BuildError("go build failed for verif" + pkg, r.stdout + "\n".join(broken))
